@@ -48,8 +48,17 @@ def plan(tier, seed):
                         reps.append('mn')
                     if k >= 4:
                         reps = ['m']
+                    # mixes of array representations (plain ndarray / no mask array / masked) decide which numpy
+                    # code path an accumulating implementation takes
+                    if k == 2 and (tier != 'quick' or kv in ('ff', 'if')) and wk in ('f', 'ff'):
+                        reps = reps + ['dm', 'md', 'nm']
+                    elif k == 3 and tier != 'quick' and kv in ('fff', 'iff') and wk in ('f', 'fff'):
+                        reps = reps + ['dmm', 'mdm']
                     for rp in reps:
                         jobs.append(dict(kind='def', cmd=name, k=k, shape=[n], kinds=kv, wkinds=wk, reps=rp))
+                    # a grid instead of a column (rank 2)
+                    if kv == 'f' * k and wk in ('f', 'f' * k) and k <= (2 if tier == 'quick' else 3):
+                        jobs.append(dict(kind='def', cmd=name, k=k, shape=[2, 2] if k <= 2 else [1, 2], kinds=kv, wkinds=wk, reps='m'))
         # ---- order invariance for commutative commands
         if name in COMMUTATIVE:
             for k in range(2, min(kmax, 4) + 1):
